@@ -53,17 +53,17 @@ ASSUMPTIONS = [
     'the channel',
 ]
 MIN_EVENTS = {
-    'quick': {'sdp_transactions': 1500, 'sdp_continued_transactions': 300, 'sdp_boundary_transactions': 60,
-              'sdp_partial_pattern_transactions': 150, 'sdp_concurrent_client_cases': 60, 'sdp_wire_responses': 5000,
-              'avdtp_chan_messages': 400, 'avdtp_chan_fragmented': 150, 'avdtp_asm_good_after_fault': 3000,
-              'avctp_asm_fragmented_good': 3000, 'avctp_asm_good_after_fault': 2000, 'avctp_chan_messages': 100,
-              'stream_ops': 4000, 'stream_illegal_ops': 1500, 'stream_state_comparisons': 4000},
-    'thorough': {'sdp_transactions': 15000, 'sdp_continued_transactions': 3000, 'sdp_boundary_transactions': 600,
-                 'sdp_partial_pattern_transactions': 1500, 'sdp_concurrent_client_cases': 600,
-                 'sdp_wire_responses': 50000, 'avdtp_chan_messages': 4000, 'avdtp_chan_fragmented': 1500,
-                 'avdtp_asm_good_after_fault': 30000, 'avctp_asm_fragmented_good': 30000,
-                 'avctp_asm_good_after_fault': 20000, 'avctp_chan_messages': 1000, 'stream_ops': 40000,
-                 'stream_illegal_ops': 15000, 'stream_state_comparisons': 40000},
+    'quick': {'sdp_transactions': 1500, 'sdp_continued_transactions': 400, 'sdp_boundary_transactions': 200,
+              'sdp_partial_pattern_transactions': 600, 'sdp_concurrent_client_cases': 150, 'sdp_wire_responses': 7000,
+              'avdtp_chan_messages': 250, 'avdtp_chan_fragmented': 80, 'avdtp_asm_good_after_fault': 5000,
+              'avctp_asm_fragmented_good': 5000, 'avctp_asm_good_after_fault': 4000, 'avctp_chan_messages': 60,
+              'stream_ops': 50000, 'stream_illegal_ops': 30000, 'stream_state_comparisons': 50000},
+    'thorough': {'sdp_transactions': 30000, 'sdp_continued_transactions': 8000, 'sdp_boundary_transactions': 4000,
+                 'sdp_partial_pattern_transactions': 12000, 'sdp_concurrent_client_cases': 3000,
+                 'sdp_wire_responses': 140000, 'avdtp_chan_messages': 5000, 'avdtp_chan_fragmented': 1600,
+                 'avdtp_asm_good_after_fault': 75000, 'avctp_asm_fragmented_good': 75000,
+                 'avctp_asm_good_after_fault': 60000, 'avctp_chan_messages': 600, 'stream_ops': 500000,
+                 'stream_illegal_ops': 300000, 'stream_state_comparisons': 500000},
 }
 CASE_TIMEOUT = 600
 SHARD_TIMEOUT = {'quick': 900, 'thorough': 7200}
@@ -89,13 +89,13 @@ def plan(tier, seed):
     q = tier == 'quick'
     base = seed * 1000003
     groups = []
-    groups.append([{'kind': 'sdp', 'seed': base + i, 'tier': tier} for i in range(260 if q else 2600)])
-    groups.append([{'kind': 'avdtp-chan', 'seed': base + i, 'tier': tier} for i in range(40 if q else 400)])
-    groups.append([{'kind': 'avdtp-asm', 'seed': base + i, 'n': 400} for i in range(16 if q else 160)])
-    groups.append([{'kind': 'avctp-asm', 'seed': base + i, 'n': 400} for i in range(16 if q else 160)])
-    groups.append([{'kind': 'avctp-chan', 'seed': base + i, 'tier': tier} for i in range(12 if q else 120)])
+    groups.append([{'kind': 'sdp', 'seed': base + i, 'tier': tier} for i in range(400 if q else 8000)])
+    groups.append([{'kind': 'avdtp-chan', 'seed': base + i, 'tier': tier} for i in range(40 if q else 800)])
+    groups.append([{'kind': 'avdtp-asm', 'seed': base + i, 'n': 400} for i in range(16 if q else 240)])
+    groups.append([{'kind': 'avctp-asm', 'seed': base + i, 'n': 400} for i in range(16 if q else 240)])
+    groups.append([{'kind': 'avctp-chan', 'seed': base + i, 'tier': tier} for i in range(24 if q else 240)])
     # streams: exhaustive enumeration of short sequences in chunks, then random long ones
-    enum_len = 4 if q else 5
+    enum_len = 5 if q else 6
     total = sum(6 ** n for n in range(1, enum_len + 1))
     chunk = 40
     st = []
@@ -103,7 +103,7 @@ def plan(tier, seed):
         for lo in range(0, total, chunk):
             st.append({'kind': 'stream', 'mode': mode, 'enum_len': enum_len, 'lo': lo, 'hi': min(total, lo + chunk),
                        'seed': base + lo})
-        for i in range(24 if q else 240):
+        for i in range(24 if q else 480):
             st.append({'kind': 'stream', 'mode': mode, 'random': 30, 'seed': base + 7919 + i})
     groups.append(st)
     # interleave so that round-robin sharding spreads the heavy kinds
@@ -500,13 +500,10 @@ def search_mismatch_class(records, pattern, extra, missing):
                 return 'extra-record/has-some-but-not-all-pattern-uuids'
         return 'extra-record/has-no-pattern-uuid'
     for h in missing:
+        # a pattern UUID that occurs in this record only below a data element alternative
         under_alt = set()
         for _aid, v in records[h]:
             under_alt |= rs.uuids_under_alternative(v)
-        plain = set()
-        for _aid, v in records[h]:
-            plain |= (rs.uuids_in(v) - rs.uuids_under_alternative(v))
-        # a pattern UUID that occurs in this record only below an alternative
         if any(u in under_alt and not _occurs_outside_alt(records[h], u) for u in want):
             return 'missing-record/uuid-only-inside-alternative'
     return 'missing-record'
@@ -639,6 +636,15 @@ async def sdp_case(case, r: R):
                   f'response of {len(payload)} bytes to a client with MTU {g["client_mtus"][ci]}')
 
     # ---- API oracle ------------------------------------------------------------------
+    # When the wire monitor saw responses leave on another client's link, whatever the
+    # clients got (or never got) is that one mechanism: report it under one key.
+    def bad(key, detail):
+        if cross and key.startswith('sdp/hang/'):
+            key = 'sdp/cross-client/client-left-pending'
+        elif cross:
+            key = 'sdp/cross-client/client-result-wrong'
+        r.bad(key, detail)
+
     nontrivial = n > 1
     for ci in range(n):
         cap_mtu = g['client_mtus'][ci]
@@ -674,38 +680,38 @@ async def sdp_case(case, r: R):
             ctx = (f'client {ci}/{n} mtu={cap_mtu} server_mtu={g["server_mtu"]} tx#{ti} '
                    f'{ {k: v for k, v in t.items() if k != "need"} } answer={alen}B capacity={cap} records={len(records)}')
             if status == 'hang':
-                r.bad(f'sdp/hang/{kind}' + multi, f'{ctx}: still pending at T_v; wire cross-link responses={cross}')
+                bad(f'sdp/hang/{kind}' + multi, f'{ctx}: still pending at T_v; wire cross-link responses={cross}')
                 continue
             if kind == 'search':
                 want = rs.match(records, t['pattern'])
                 if status != 'ok':
-                    r.bad('sdp/search/raised' + bsfx, f'{ctx}: {status} {val}')
+                    bad('sdp/search/raised' + bsfx, f'{ctx}: {status} {val}')
                     continue
                 extra = [h for h in val if h not in set(want)]
                 missing = [h for h in want if h not in set(val)]
                 if extra or missing:
-                    r.bad(f'sdp/search/{search_mismatch_class(records, t["pattern"], extra, missing)}' + bsfx,
+                    bad(f'sdp/search/{search_mismatch_class(records, t["pattern"], extra, missing)}' + bsfx,
                           f'{ctx}: extra={[hex(h) for h in extra][:6]} missing={[hex(h) for h in missing][:6]} '
                           f'(got {len(val)}, want {len(want)})')
                 elif len(val) != len(set(val)):
-                    r.bad('sdp/search/duplicate-handle' + bsfx, f'{ctx}: {len(val)} handles, {len(set(val))} distinct')
+                    bad('sdp/search/duplicate-handle' + bsfx, f'{ctx}: {len(val)} handles, {len(set(val))} distinct')
                 continue
             if kind == 'attr':
                 if t['handle'] not in records:
                     r.ev('sdp_unknown_handle_requests')
                     if status == 'ok':
-                        r.bad('sdp/attr/unknown-handle-answered' + multi, f'{ctx}: got {val!r:.200}')
+                        bad('sdp/attr/unknown-handle-answered' + multi, f'{ctx}: got {val!r:.200}')
                     continue
                 if status != 'ok':
-                    r.bad('sdp/attr/raised' + bsfx, f'{ctx}: {status} {val}')
+                    bad('sdp/attr/raised' + bsfx, f'{ctx}: {status} {val}')
                     continue
                 d = cmp_attr_list(val, rs.select(records[t['handle']], t['ids']))
                 if d:
-                    r.bad(f'sdp/attr/{d[0]}' + ('/at-capacity-boundary' if boundary else '') + bsfx, f'{ctx}: {d[1]}')
+                    bad(f'sdp/attr/{d[0]}' + ('/at-capacity-boundary' if boundary else '') + bsfx, f'{ctx}: {d[1]}')
                 continue
             # search-attribute
             if status != 'ok':
-                r.bad('sdp/search-attr/raised' + ('/at-capacity-boundary' if boundary else '') + bsfx,
+                bad('sdp/search-attr/raised' + ('/at-capacity-boundary' if boundary else '') + bsfx,
                       f'{ctx}: {status} {val}')
                 continue
             want_lists = []
@@ -741,7 +747,7 @@ async def sdp_case(case, r: R):
                 if bad_lists and unmatched:
                     d = cmp_attr_list(bad_lists[0], unmatched[0][1])
                 cls = (d[0] if d else 'lists-differ') + ('/at-capacity-boundary' if boundary else '')
-            r.bad(f'sdp/search-attr/{cls}' + bsfx,
+            bad(f'sdp/search-attr/{cls}' + bsfx,
                   f'{ctx}: {len(got_lists)} lists, want {len(want_lists)}; lists matching no expected record: '
                   f'{len(bad_lists)} (records not matching the pattern: {[hex(h) for h in extra_records][:5]}); '
                   f'expected lists not returned: {[hex(h) for h, _ in unmatched][:5]}')
@@ -765,12 +771,812 @@ async def sdp_case(case, r: R):
                 'outcomes': [[o[0] for o in results[ci]] for ci in range(n)]}
 
 
+# =============================================================================
+# AVDTP signalling
+# =============================================================================
+SIG_SET_CONFIGURATION, SIG_GET_CAPABILITIES, SIG_SECURITY_CONTROL, SIG_GET_ALL_CAPABILITIES = 0x03, 0x02, 0x0B, 0x0C
+MT_COMMAND, MT_GENERAL_REJECT, MT_ACCEPT, MT_REJECT = 0, 1, 2, 3
+
+
+def gen_caps(rng, total):
+    """Service capabilities (category, bytes) whose serialisation (2-byte header each) is
+    exactly `total` bytes (total == 1 is impossible: rounded to 0 or 2)."""
+    if total == 1:
+        total = 2
+    caps = []
+    left = total
+    cats = [1, 2, 3, 4, 5, 6, 8, 9]          # not MEDIA_CODEC: its body is parsed further
+    while left > 0:
+        if left == 3 or left == 2:
+            body = left - 2
+        else:
+            body = min(255, left - 2)
+            if body > 0 and rng.random() < 0.5:
+                body = rng.randint(0, body)
+            if left - 2 - body == 1:
+                body = max(0, body - 1)
+        caps.append((rng.choice(cats), bytes(rng.getrandbits(8) for _ in range(body))))
+        left -= 2 + body
+    return caps
+
+
+def caps_bytes(caps):
+    return b''.join(bytes([c, len(b)]) + b for c, b in caps)
+
+
+def caps_of(lst):
+    return [(int(c.service_category), bytes(c.service_capabilities_bytes)) for c in lst]
+
+
+def boundary_len(rng, mtu, limit):
+    """payload lengths around the single/fragmented switch and around whole fragments"""
+    c = rng.choice(['switch', 'frag', 'frag', 'small', 'any', 'big'])
+    if c == 'switch':
+        v = mtu - 2 + rng.choice([-1, 0, 1, 2])
+    elif c == 'frag':
+        k = rng.randint(1, 6)
+        v = k * (mtu - 3) + rng.choice([-1, 0, 1, 2, 3])
+    elif c == 'small':
+        v = rng.choice([0, 1, 2, 3])
+    elif c == 'big':
+        v = rng.randint(limit // 2, limit)
+    else:
+        v = rng.randint(0, limit)
+    return max(0, min(limit, v))
+
+
+async def avdtp_chan_case(case, r: R):
+    from bumble import avdtp, core, l2cap
+    from vlib import rig as vrig
+
+    rng = random.Random(case['seed'])
+    vrig.seed_entropy(case['seed'])
+    mtu_a = rng.choice([48, 49, 50, 51, 64, 100, 255, 256, 257, 672, 1024, rng.randint(48, 1024)])
+    mtu_b = rng.choice([48, 49, 50, 51, 64, 100, 255, 256, 257, 672, 1024, rng.randint(48, 1024)])
+    rg = vrig.Rig(2, seed=case['seed'], max_delay=rng.choice([0, 0, 1, 3]), classic=True,
+                  acl_len=[rng.choice([27, 64, 339, 1021]) for _ in range(2)], acl_num=[rng.choice([1, 2, 8]) for _ in range(2)])
+    await rg.power_on()
+    ca, cb = await rg.connect_classic(0, 1)
+    protos = {}
+
+    def on_channel(ch):
+        ch.on(ch.EVENT_OPEN, lambda: protos.__setitem__('b', avdtp.Protocol(ch)))
+
+    rg.devices[1].create_l2cap_server(spec=l2cap.ClassicChannelSpec(psm=AVDTP_PSM, mtu=mtu_b), handler=on_channel)
+    ch_a = await vloop.vwait(ca.create_l2cap_channel(spec=l2cap.ClassicChannelSpec(psm=AVDTP_PSM, mtu=mtu_a)))
+    await rg.quiesce()
+    pa, pb = avdtp.Protocol(ch_a), protos['b']
+    r.ev('oracle_evals')
+    if (ch_a.peer_mtu, pb.l2cap_channel.peer_mtu) != (mtu_b, mtu_a):
+        raise RuntimeError(f'harness: MTUs not negotiated as configured: {ch_a.peer_mtu}, {pb.l2cap_channel.peer_mtu}')
+    delivered = {'a': [], 'b': []}
+    for side, p in (('a', pa), ('b', pb)):
+        orig = p.message_assembler.callback
+
+        def cb_(label, message, _side=side, _orig=orig):
+            delivered[_side].append((label, int(message.signal_identifier), int(message.message_type),
+                                     bytes(message.payload)))
+            _orig(label, message)
+
+        p.message_assembler.callback = cb_
+    # acceptor endpoint with generated capabilities; records what it is configured with
+    configured, security = [], []
+    ep_caps = []
+
+    class EP(avdtp.LocalStreamEndPoint):
+        async def on_set_configuration_command(self, configuration):
+            configured.append(caps_of(configuration))
+            return None
+
+        async def on_security_control_command(self, data):
+            security.append(bytes(data))
+            return None
+
+    ep = EP(pb, 1, avdtp.MediaType.AUDIO, avdtp.StreamEndPointType.SNK, ep_caps)
+    pb.local_endpoints.append(ep)
+    expected = {'a': [], 'b': []}       # what each side's assembler must deliver, in order
+
+    def lencls(size, mtu):
+        # the discriminating class of a message: how its payload relates to the peer MTU
+        if size == mtu - 2:
+            return 'payload=peer-mtu-2'
+        return 'fragmented' if size + 2 > mtu else 'single'
+
+    def case_cls():
+        cs = {lencls(sz, m) for _k, sz, m in sample}
+        return next((c for c in ('payload=peer-mtu-2', 'fragmented') if c in cs), 'single')
+
+    nmsg = rng.randint(4, 10)
+    limit = 2000
+    sample = []
+    for i in range(nmsg):
+        kind = rng.choice(['get-caps', 'set-config', 'security', 'get-caps', 'set-config'])
+        tl = pa.transaction_count % 16
+        try:
+            if kind == 'get-caps':
+                n = boundary_len(rng, mtu_a, limit)
+                caps = gen_caps(rng, n)
+                ep.capabilities = [avdtp.ServiceCapabilities(c, b) for c, b in caps]
+                expected['b'].append((tl, SIG_GET_ALL_CAPABILITIES, MT_COMMAND, bytes([1 << 2])))
+                expected['a'].append((tl, SIG_GET_ALL_CAPABILITIES, MT_ACCEPT, caps_bytes(caps)))
+                cur = (len(caps_bytes(caps)), mtu_a)
+                rsp = await vloop.vwait(pa.get_capabilities(1))
+                r.ev('oracle_evals')
+                if caps_of(rsp.capabilities) != caps:
+                    r.bad(f'avdtp/channel/capabilities-differ/response/{lencls(len(caps_bytes(caps)), mtu_a)}',
+                          f'{len(caps)} capabilities ({len(caps_bytes(caps))} bytes) to MTU {mtu_a}: got '
+                          f'{len(list(rsp.capabilities))} capabilities')
+                size, mtu = len(caps_bytes(caps)), mtu_a
+            elif kind == 'set-config':
+                n = max(0, boundary_len(rng, mtu_b, limit) - 2)
+                caps = gen_caps(rng, n)
+                ep.stream = None
+                int_seid = rng.randint(1, 0x3E)
+                expected['b'].append((tl, SIG_SET_CONFIGURATION, MT_COMMAND,
+                                      bytes([1 << 2, int_seid << 2]) + caps_bytes(caps)))
+                expected['a'].append((tl, SIG_SET_CONFIGURATION, MT_ACCEPT, b''))
+                before = len(configured)
+                cur = (len(caps_bytes(caps)) + 2, mtu_b)
+                await vloop.vwait(pa.set_configuration(1, int_seid, [avdtp.ServiceCapabilities(c, b) for c, b in caps]))
+                r.ev('oracle_evals')
+                if len(configured) != before + 1 or configured[-1] != caps:
+                    r.bad(f'avdtp/channel/capabilities-differ/command/{lencls(len(caps_bytes(caps)) + 2, mtu_b)}',
+                          f'{len(caps)} capabilities ({len(caps_bytes(caps)) + 2} bytes) to MTU {mtu_b}: endpoint was '
+                          f'configured {len(configured) - before} times')
+                size, mtu = len(caps_bytes(caps)) + 2, mtu_b
+            else:
+                n = max(1, boundary_len(rng, mtu_b, limit))
+                data = bytes(rng.getrandbits(8) for _ in range(n - 1))
+                expected['b'].append((tl, SIG_SECURITY_CONTROL, MT_COMMAND, bytes([1 << 2]) + data))
+                expected['a'].append((tl, SIG_SECURITY_CONTROL, MT_ACCEPT, b''))
+                before = len(security)
+                cur = (n, mtu_b)
+                await vloop.vwait(pa.send_command(avdtp.Security_Control_Command(1, data)))
+                r.ev('oracle_evals')
+                if len(security) != before + 1 or security[-1] != data:
+                    r.bad(f'avdtp/channel/payload-differs/command/{lencls(n, mtu_b)}',
+                          f'security data of {n - 1} bytes to MTU {mtu_b}')
+                size, mtu = n, mtu_b
+        except vloop.Hang:
+            sample.append((kind,) + cur)
+            r.bad(f'avdtp/channel/hang/{kind}/{lencls(*cur)}',
+                  f'{kind} with a {cur[0]}-byte payload to peer MTU {cur[1]} pending at T_v; delivered '
+                  f'a={len(delivered["a"])} b={len(delivered["b"])}')
+            break
+        except core.ProtocolError as e:
+            sample.append((kind,) + cur)
+            r.bad(f'avdtp/channel/rejected/{kind}/{lencls(*cur)}', f'{kind}: {e} ({cur[0]}-byte payload, peer MTU {cur[1]})')
+            break
+        r.ev('avdtp_chan_messages', 2)
+        if size + 2 > mtu:
+            r.ev('avdtp_chan_fragmented')
+        sample.append((kind, size, mtu))
+    await rg.quiesce()
+    # delivered == expected, byte for byte and in order
+    for side in ('a', 'b'):
+        r.ev('oracle_evals')
+        if delivered[side] != expected[side]:
+            k = next((i for i in range(min(len(delivered[side]), len(expected[side])))
+                      if delivered[side][i] != expected[side][i]), min(len(delivered[side]), len(expected[side])))
+            g_ = delivered[side][k] if k < len(delivered[side]) else None
+            w_ = expected[side][k] if k < len(expected[side]) else None
+            cls = 'lost' if g_ is None else 'surplus' if w_ is None else (
+                'payload-differs' if g_[:3] == w_[:3] else 'header-differs')
+            ref = w_ if w_ is not None else g_
+            r.bad(f'avdtp/channel/delivered-{cls}/{lencls(len(ref[3]), mtu_a if side == "a" else mtu_b)}',
+                  f'receiver {side} message #{k}: got {None if g_ is None else (g_[:3], len(g_[3]))} want '
+                  f'{None if w_ is None else (w_[:3], len(w_[3]))} (MTUs a={mtu_a} b={mtu_b})')
+    # wire: every packet within the receiver's MTU, trains well formed, reassembly == expected
+    for dev, rx_mtu, side in ((0, mtu_b, 'b'), (1, mtu_a, 'a')):
+        ra = rs.AvdtpReassembler()
+        msgs = []
+        for _seq, _d, direction, _h, cid, payload in vrig.l2cap_log(rg.boundary_log, dev=dev, direction=vrig.H2C):
+            if cid < 0x40:
+                continue
+            r.ev('avdtp_wire_packets')
+            r.ev('oracle_evals')
+            if len(payload) > rx_mtu:
+                r.bad('avdtp/wire/packet-exceeds-peer-mtu', f'{len(payload)}-byte signalling packet to a peer with MTU {rx_mtu}')
+            m = ra.feed(payload)
+            if m is not None:
+                msgs.append(m)
+        r.ev('oracle_evals')
+        if ra.errors:
+            r.bad(f'avdtp/wire/malformed-train/{case_cls()}', f'{ra.errors[:3]} (sender dev{dev}, peer MTU {rx_mtu})')
+        elif msgs != expected[side][:len(msgs)] or len(msgs) < len(delivered[side]):
+            r.bad(f'avdtp/wire/message-differs/{case_cls()}', f'reference reassembly of dev{dev} output differs from what was sent '
+                                                f'({len(msgs)} messages, peer MTU {rx_mtu})')
+    for where, e in rg.exceptions:
+        r.bad(f'avdtp/channel/exception-in-stack/{case_cls()}', f'{where}: {e}')
+    if any(sz + 2 > m for _k, sz, m in sample):
+        r.sig('avdtp-chan', mtu_a, mtu_b, tuple(sample))
+    r.sched.add(rg.schedule_signature)
+    r.evals()
+    r.sample = {'kind': 'avdtp-chan', 'mtu_a': mtu_a, 'mtu_b': mtu_b, 'messages(kind,payload,peer_mtu)': sample[:8]}
+
+
+AVDTP_FAULTS = ['unfinished', 'drop-start', 'drop-continue', 'drop-end', 'dup-start', 'dup-continue', 'dup-end',
+                'relabel-continue', 'retype-continue', 'stray-continue', 'stray-end', 'empty-pdu', 'short-start',
+                'count-too-big', 'count-too-small']
+
+
+def break_train(rng, fault, train, relabel):
+    """train: list of packets of one fragmented message (>= 3 packets). Returns the packets
+    actually fed for the broken message."""
+    t = list(train)
+    mid = rng.randrange(1, len(t) - 1)
+    if fault == 'unfinished':
+        return t[:rng.randrange(1, len(t))]
+    if fault == 'drop-start':
+        return t[1:]
+    if fault == 'drop-continue':
+        return t[:mid] + t[mid + 1:]
+    if fault == 'drop-end':
+        return t[:-1]
+    if fault == 'dup-start':
+        return [t[0]] + t
+    if fault == 'dup-continue':
+        return t[:mid] + [t[mid]] + t[mid:]
+    if fault == 'dup-end':
+        return t + [t[-1]]
+    if fault == 'relabel-continue':
+        k = rng.randrange(1, len(t))
+        return t[:k] + [relabel(t[k])] + t[k + 1:]
+    if fault == 'stray-continue':
+        return [t[mid]]
+    if fault == 'stray-end':
+        return [t[-1]]
+    raise ValueError(fault)
+
+
+def judge_deliveries(r, proto, delivered, items, faults_used, basic_broken=False):
+    """items: [(original tuple, good?, class)] in feeding order. Every good one exactly once
+    and in order; a broken one at most once and only unaltered; nothing else.
+    basic_broken: a fault-free history already showed that clean fragmented messages are
+    not delivered at all; such losses are then reported under that one key."""
+    fault = '+'.join(sorted(faults_used)) or 'no-fault'
+
+    def lost_key(cls):
+        if cls == 'fragmented' and basic_broken:
+            return f'{proto}/assembler/good-message-lost/fragmented/after-no-fault'
+        return f'{proto}/assembler/good-message-lost/{cls}/after-{fault}'
+    want = [m for m, good, _f in items if good]
+    pos = 0
+    seen_broken = set()
+    ok = True
+    for d in delivered:
+        if pos < len(want) and d == want[pos]:
+            pos += 1
+            continue
+        bi = next((i for i, (m, good, _f) in enumerate(items) if not good and m == d and i not in seen_broken), None)
+        if bi is not None:
+            seen_broken.add(bi)
+            continue
+        ok = False
+        if d in want[:pos]:
+            r.bad(f'{proto}/assembler/delivered-twice/after-{fault}', f'{str(d)[:120]} delivered again')
+        elif d in want[pos:]:
+            k = want.index(d, pos)
+            lost = want[pos]
+            lost_item = next(it for it in items if it[1] and it[0] == lost)
+            r.bad(lost_key(lost_item[2]),
+                  f'good message #{pos} ({lost[:-1]}, {len(lost[-1])} payload bytes) never delivered (fault: {fault})')
+            pos = k + 1
+        else:
+            r.bad(f'{proto}/assembler/corrupt-delivery/after-{fault}',
+                  f'delivered {str(d[:-1])} with {len(d[-1])} payload bytes, which is none of the messages fed')
+    if ok and pos < len(want):
+        lost = want[pos]
+        lost_item = next(it for it in items if it[1] and it[0] == lost)
+        r.bad(lost_key(lost_item[2]),
+              f'good message #{pos} of {len(want)} ({lost[:-1]}, {len(lost[-1])} payload bytes) never delivered; '
+              f'{len(delivered)} deliveries (fault: {fault})')
+        ok = False
+    return ok
+
+
+def avdtp_opaque_message(rng, idx, n):
+    """(signal, message type, payload of n bytes) whose payload bumble keeps opaque or
+    parses as capabilities."""
+    c = rng.choice(['sec-cmd', 'sec-rsp', 'caps-rsp', 'general-reject'])
+    if c == 'sec-cmd':
+        n = max(1, n)
+        return SIG_SECURITY_CONTROL, MT_COMMAND, bytes([rng.randint(1, 0x3E) << 2]) + bytes(
+            (idx + i * 5) & 0xFF for i in range(n - 1))
+    if c == 'sec-rsp':
+        return SIG_SECURITY_CONTROL, MT_ACCEPT, bytes((idx * 3 + i) & 0xFF for i in range(n))
+    if c == 'caps-rsp':
+        return rng.choice([SIG_GET_CAPABILITIES, SIG_GET_ALL_CAPABILITIES]), MT_ACCEPT, caps_bytes(gen_caps(rng, n))
+    return rng.choice([SIG_SECURITY_CONTROL, 0x06, 0x07]), MT_GENERAL_REJECT, bytes((idx + i) & 0xFF for i in range(n))
+
+
+def avdtp_asm_history(rng, r: R, force_fault=None, basic_broken=False):
+    from bumble import avdtp
+
+    delivered = []
+    asm = avdtp.MessageAssembler(lambda label, m: delivered.append(
+        (label, int(m.signal_identifier), int(m.message_type), bytes(m.payload))))
+    mtu = rng.choice([48, 49, 64, 100, 256, 672, 1024, rng.randint(48, 1024)])
+    nitems = rng.randint(2, 6)
+    fault = force_fault or rng.choice(AVDTP_FAULTS)
+    items, fed, used = [], [], set()
+    broken_at = rng.randrange(0, nitems - 1) if fault != 'none' else -1
+    raised = 0
+
+    def feed(p):
+        nonlocal raised
+        fed.append(p)
+        try:
+            asm.on_pdu(p)
+        except Exception:
+            raised += 1
+
+    for i in range(nitems):
+        broken = i == broken_at or (fault != 'none' and i < nitems - 1 and i != broken_at + 1 and rng.random() < 0.15)
+        label = rng.randrange(16)
+        if broken or rng.random() < 0.6:
+            n = rng.choice([2 * (mtu - 3) + rng.randint(1, mtu), rng.randint(min(1900, 2 * mtu), min(2000, 6 * mtu)),
+                            3 * (mtu - 1) - 2 + rng.choice([-1, 0, 1])])
+        else:
+            n = boundary_len(rng, mtu, 2000)
+        sig, mt, payload = avdtp_opaque_message(rng, i, min(n, 2000))
+        orig = (label, sig, mt, payload)
+        if rng.random() < 0.5 or len(payload) + 2 <= mtu:
+            train = rs.avdtp_fragment(label, mt, sig, payload, mtu)
+        else:
+            k = rng.randint(3, 8)
+            cut = sorted(rng.randint(0, len(payload)) for _ in range(k - 1))
+            sizes = [b - a for a, b in zip([0] + cut, cut + [len(payload)])]
+            train = rs.avdtp_fragment_sized(label, mt, sig, payload, sizes)
+        if not broken:
+            items.append((orig, True, 'fragmented' if len(train) > 1 else 'single'))
+            if len(train) > 1:
+                r.ev('avdtp_asm_fragmented_good')
+            if used:
+                r.ev('avdtp_asm_good_after_fault')
+            for p in train:
+                feed(p)
+            continue
+        if len(train) < 3:
+            train = rs.avdtp_fragment_sized(label, mt, sig, payload + bytes(3), [1, 1, len(payload) + 1])
+            orig = (label, sig, mt, payload + bytes(3))
+        used.add(fault)
+        if fault == 'retype-continue':
+            k = rng.randrange(1, len(train))
+            pk = train[k]
+            broken_train = train[:k] + [bytes([pk[0] ^ rng.choice([1, 2, 3])]) + pk[1:]] + train[k + 1:]
+        elif fault == 'empty-pdu':
+            k = rng.randrange(1, len(train))
+            broken_train = train[:k] + [b''] + train[k:]
+        elif fault == 'short-start':
+            broken_train = [train[0][:rng.choice([1, 2])]] + train[1:]
+        elif fault == 'count-too-big':
+            broken_train = [train[0][:2] + bytes([train[0][2] + 1]) + train[0][3:]] + train[1:]
+        elif fault == 'count-too-small':
+            broken_train = [train[0][:2] + bytes([train[0][2] - 1]) + train[0][3:]] + train[1:]
+        else:
+            broken_train = break_train(rng, fault, train,
+                                       lambda pk: bytes([(pk[0] + (rng.randrange(1, 16) << 4)) & 0xFF]) + pk[1:])
+        items.append((orig, False, 'broken'))
+        for p in broken_train:
+            feed(p)
+    r.ev('avdtp_asm_packets', len(fed))
+    r.ev('avdtp_asm_exceptions_from_on_pdu', raised)
+    r.ev('oracle_evals')
+    ok = judge_deliveries(r, 'avdtp', delivered, items, used, basic_broken)
+    if not ok and r.sample is None:
+        r.sample = {'kind': 'avdtp-asm', 'fault': fault, 'mtu': mtu,
+                    'items': [(m[:3], len(m[3]), g) for m, g, _f in items], 'fed': [p[:4].hex() for p in fed][:30]}
+    r.sig('avdtp-asm', fault, mtu, tuple((m[:3], len(m[3]), g) for m, g, _f in items))
+    r.evals()
+    return ok, {'kind': 'avdtp-asm', 'fault': fault, 'mtu': mtu, 'items': [(list(m[:3]), len(m[3]), g) for m, g, _f in items]}
+
+
+# =============================================================================
+# AVCTP
+# =============================================================================
+AVCTP_FAULTS = ['none', 'none', 'unfinished', 'drop-start', 'drop-continue', 'drop-end', 'dup-start', 'dup-continue',
+                'dup-end', 'relabel-continue', 'flip-cr-continue', 'stray-continue', 'stray-end', 'count-too-big',
+                'count-too-small']
+
+
+def avctp_history(rng, r: R, force_fault=None, basic_broken=False):
+    from bumble import avctp
+
+    delivered = []
+    asm = avctp.MessageAssembler(lambda label, is_command, ipid, pid, payload: delivered.append(
+        (label, bool(is_command), bool(ipid), pid, bytes(payload))))
+    nitems = rng.randint(2, 6)
+    fault = force_fault or rng.choice(AVCTP_FAULTS)
+    items, used, fed = [], set(), []
+    broken_at = rng.randrange(0, nitems - 1) if fault != 'none' else -1
+    raised = 0
+
+    def feed(p):
+        nonlocal raised
+        fed.append(p)
+        try:
+            asm.on_pdu(p)
+        except Exception:
+            raised += 1
+
+    for i in range(nitems):
+        broken = i == broken_at
+        label = rng.randrange(16)
+        cr = rng.randrange(2)
+        pid = rng.choice([0x110E, 0x110C, 0x0000, 0xFFFF, rng.getrandbits(16)])
+        n = rng.choice([0, 1, 2, 3, 7, 508, 509, 512, 1500, rng.randint(0, 1500), rng.randint(0, 1500)])
+        payload = bytes((i * 11 + j * 3) & 0xFF for j in range(n))
+        if broken:
+            payload = payload + bytes(range(3))
+        style = rng.choice(['single', 'mtu', 'mtu', 'sized', 'sized']) if not broken else 'sized'
+        if style == 'single':
+            ipid = 1 if (cr == 1 and rng.random() < 0.1) else 0
+            train = [rs.avctp_single(label, cr, ipid, pid, payload)]
+            orig = (label, cr == 0, bool(ipid), pid, payload)
+        else:
+            if style == 'mtu':
+                train = rs.avctp_fragment_mtu(label, cr, pid, payload, rng.choice([48, 64, 128, 335, 672, 1024]))
+            else:
+                k = rng.randint(3 if broken else 2, 9)
+                cut = sorted(rng.randint(0, len(payload)) for _ in range(k - 1))
+                sizes = [b - a for a, b in zip([0] + cut, cut + [len(payload)])]
+                train = rs.avctp_fragment(label, cr, pid, payload, sizes)
+            orig = (label, cr == 0, False, pid, payload)
+        if not broken:
+            items.append((orig, True, 'fragmented' if len(train) > 1 else 'single'))
+            if len(train) > 1:
+                r.ev('avctp_asm_fragmented_good')
+            if used:
+                r.ev('avctp_asm_good_after_fault')
+            for p in train:
+                feed(p)
+            continue
+        used.add(fault)
+        if fault == 'flip-cr-continue':
+            k = rng.randrange(1, len(train))
+            broken_train = train[:k] + [bytes([train[k][0] ^ 2]) + train[k][1:]] + train[k + 1:]
+        elif fault == 'count-too-big':
+            broken_train = [train[0][:1] + bytes([train[0][1] + 1]) + train[0][2:]] + train[1:]
+        elif fault == 'count-too-small':
+            broken_train = [train[0][:1] + bytes([train[0][1] - 1]) + train[0][2:]] + train[1:]
+        else:
+            broken_train = break_train(rng, fault, train,
+                                       lambda pk: bytes([(pk[0] + (rng.randrange(1, 16) << 4)) & 0xFF]) + pk[1:])
+        items.append((orig, False, 'broken'))
+        for p in broken_train:
+            feed(p)
+    r.ev('avctp_asm_packets', len(fed))
+    r.ev('avctp_asm_exceptions_from_on_pdu', raised)
+    r.ev('oracle_evals')
+    ok = judge_deliveries(r, 'avctp', delivered, items, used, basic_broken)
+    if not ok and r.sample is None:
+        r.sample = {'kind': 'avctp-asm', 'fault': fault, 'items': [(m[:4], len(m[4]), g) for m, g, _f in items],
+                    'fed': [p[:5].hex() for p in fed][:30]}
+    r.sig('avctp-asm', fault, tuple((m[:4], len(m[4]), f) for m, _g, f in items))
+    r.evals()
+    return ok, {'kind': 'avctp-asm', 'fault': fault, 'items': [(list(m[:4]), len(m[4]), f) for m, _g, f in items]}
+
+
+async def avctp_chan_case(case, r: R):
+    """Fragment trains written by the harness into a real L2CAP channel whose other end is a
+    bumble avctp.Protocol with command / response handlers registered for the PID."""
+    from bumble import avctp, l2cap
+    from vlib import rig as vrig
+
+    rng = random.Random(case['seed'])
+    vrig.seed_entropy(case['seed'])
+    mtu_b = rng.choice([48, 64, 128, 335, 672, 1024])
+    rg = vrig.Rig(2, seed=case['seed'], max_delay=rng.choice([0, 1, 3]), classic=True,
+                  acl_len=[rng.choice([27, 64, 339, 1021]) for _ in range(2)])
+    await rg.power_on()
+    ca, _cb = await rg.connect_classic(0, 1)
+    got = []
+    PID = 0x110E
+    protos = {}
+
+    def on_channel(ch):
+        p = avctp.Protocol(ch)
+        p.register_command_handler(PID, lambda label, payload: got.append((label, True, bytes(payload))))
+        p.register_response_handler(PID, lambda label, payload: got.append((label, False, bytes(payload or b''))))
+        protos['b'] = p
+
+    rg.devices[1].create_l2cap_server(spec=l2cap.ClassicChannelSpec(psm=AVCTP_PSM, mtu=mtu_b), handler=on_channel)
+    ch = await vloop.vwait(ca.create_l2cap_channel(spec=l2cap.ClassicChannelSpec(psm=AVCTP_PSM, mtu=1024)))
+    await rg.quiesce()
+    want = []
+    sizes = []
+    for i in range(rng.randint(4, 10)):
+        label, cr = rng.randrange(16), rng.randrange(2)
+        n = rng.choice([0, 1, mtu_b - 4, mtu_b - 3, mtu_b - 2, 2 * mtu_b, 1500, rng.randint(0, 1500)])
+        payload = bytes((i * 13 + j) & 0xFF for j in range(n))
+        broken = rng.random() < 0.2
+        train = rs.avctp_fragment_mtu(label, cr, PID, payload, mtu_b)
+        if broken and len(train) >= 2:
+            train = train[:-1]        # unfinished train, then the next message
+        else:
+            want.append((label, cr == 0, payload))
+            r.ev('avctp_chan_messages')
+            if len(train) > 1:
+                r.ev('avctp_chan_fragmented')
+        sizes.append((n, len(train), broken))
+        for p in train:
+            ch.write(p)
+            if rng.random() < 0.3:
+                await asyncio.sleep(0)
+    await rg.quiesce()
+    r.ev('oracle_evals')
+    if got != want:
+        k = next((i for i in range(min(len(got), len(want))) if got[i] != want[i]), min(len(got), len(want)))
+        w_ = want[k] if k < len(want) else None
+        frag = w_ is not None and len(w_[2]) + 3 > mtu_b
+        r.bad('avctp/channel/' + ('fragmented-message-not-delivered' if frag else 'message-not-delivered'),
+              f'handler got {len(got)} of {len(want)} messages; first difference at #{k}: want '
+              f'{None if w_ is None else (w_[0], w_[1], len(w_[2]))} got '
+              f'{None if k >= len(got) else (got[k][0], got[k][1], len(got[k][2]))} (receiver MTU {mtu_b})')
+    for where, e in rg.exceptions:
+        r.bad('avctp/channel/exception-in-stack', f'{where}: {e}')
+    r.sig('avctp-chan', mtu_b, tuple(sizes))
+    r.sched.add(rg.schedule_signature)
+    r.evals()
+    r.sample = {'kind': 'avctp-chan', 'receiver_mtu': mtu_b, 'messages(payload,packets,broken)': sizes}
+
+
+# =============================================================================
+# AVDTP stream state machines
+# =============================================================================
+def nth_sequence(index, max_len):
+    """index-th sequence in the enumeration of all op sequences of length 1..max_len."""
+    n = 1
+    while index >= 6 ** n:
+        index -= 6 ** n
+        n += 1
+    seq = []
+    for _ in range(n):
+        seq.append(index % 6)
+        index //= 6
+    return tuple(reversed(seq))
+
+
+def sbc_caps(avdtp, a2dp, sink):
+    I = a2dp.SbcMediaCodecInformation
+    if sink:
+        info = I(sampling_frequency=I.SamplingFrequency.SF_48000 | I.SamplingFrequency.SF_44100,
+                 channel_mode=I.ChannelMode.MONO | I.ChannelMode.JOINT_STEREO | I.ChannelMode.STEREO,
+                 block_length=I.BlockLength.BL_4 | I.BlockLength.BL_8 | I.BlockLength.BL_12 | I.BlockLength.BL_16,
+                 subbands=I.Subbands.S_4 | I.Subbands.S_8,
+                 allocation_method=I.AllocationMethod.LOUDNESS | I.AllocationMethod.SNR,
+                 minimum_bitpool_value=2, maximum_bitpool_value=53)
+    else:
+        info = I(sampling_frequency=I.SamplingFrequency.SF_44100, channel_mode=I.ChannelMode.JOINT_STEREO,
+                 block_length=I.BlockLength.BL_16, subbands=I.Subbands.S_8,
+                 allocation_method=I.AllocationMethod.LOUDNESS, minimum_bitpool_value=2, maximum_bitpool_value=53)
+    return avdtp.MediaCodecCapabilities(media_type=avdtp.MediaType.AUDIO, media_codec_type=a2dp.CodecType.SBC,
+                                        media_codec_information=info)
+
+
+async def stream_case(case, r: R):
+    from bumble import a2dp, avdtp, core, l2cap
+    from vlib import rig as vrig
+
+    rng = random.Random(case['seed'])
+    vrig.seed_entropy(case['seed'])
+    mode = case['mode']
+    if 'random' in case:
+        seqs = [tuple(rng.randrange(6) for _ in range(rng.randint(6, 12))) for _ in range(case['random'])]
+        # bias half of them towards legal moves so that deep states are reached
+        for i in range(0, len(seqs), 2):
+            st, out = rs.IDLE, []
+            for _ in range(len(seqs[i])):
+                legal = [k for k, op in enumerate(rs.STREAM_OPS) if rs.stream_next(st, op)]
+                k = rng.choice(legal) if rng.random() < 0.75 else rng.randrange(6)
+                out.append(k)
+                st = rs.stream_next(st, rs.STREAM_OPS[k]) or st
+            seqs[i] = tuple(out)
+    else:
+        seqs = [nth_sequence(i, case['enum_len']) for i in range(case['lo'], case['hi'])]
+    rg = vrig.Rig(2, seed=case['seed'], max_delay=rng.choice([0, 0, 1, 2]), classic=True)
+    await rg.power_on()
+    ca, cb = await rg.connect_classic(0, 1)
+    servers = []
+    listener = avdtp.Listener.for_device(rg.devices[1])
+    listener.on('connection', servers.append)
+    client = await vloop.vwait(avdtp.Protocol.connect(ca))
+    await rg.quiesce()
+    server = servers[0]
+    first = True
+    State = avdtp.State
+
+    def name(st):
+        return State(st).name
+
+    for seq in seqs:
+        if len(server.local_endpoints) >= 60:
+            break
+        sink = server.add_sink(sbc_caps(avdtp, a2dp, True))
+        source = client.add_source(sbc_caps(avdtp, a2dp, False), None)
+        if first:
+            eps = list(await vloop.vwait(client.discover_remote_endpoints()))
+            proxy = next(e for e in eps if e.seid == sink.seid)
+            first = False
+        else:
+            proxy = avdtp.StreamEndPointProxy(client, sink.seid)
+        stream = None
+        transport = None
+        if mode == 'api':
+            stream = avdtp.Stream(client, source, proxy)
+            client.streams[source.seid] = stream
+        model = rs.IDLE
+        legal_moves = 0
+        had_illegal = False
+        ops_done = []
+
+        def states():
+            snk = name(sink.stream.state) if sink.stream is not None else rs.IDLE
+            src = name(stream.state) if stream is not None else None
+            return src, snk
+
+        for k in seq:
+            op = rs.STREAM_OPS[k]
+            before = states()
+            nxt = rs.stream_next(model, op)
+            outcome = 'ok'
+            try:
+                if mode == 'api':
+                    if op == 'configure':
+                        await vloop.vwait(client.create_stream(source, proxy))
+                    elif op == 'open':
+                        await vloop.vwait(stream.open())
+                    elif op == 'start':
+                        await vloop.vwait(stream.start())
+                    elif op == 'suspend':
+                        await vloop.vwait(stream.stop())
+                    elif op == 'close':
+                        await vloop.vwait(stream.close())
+                    elif hasattr(stream, 'abort'):
+                        await vloop.vwait(stream.abort())
+                    else:
+                        await vloop.vwait(stream.remote_endpoint.abort())
+                else:
+                    # raw signalling commands against the acceptor; the harness plays the
+                    # initiator's part of the transport channel as AVDTP 6.x prescribes
+                    if op == 'configure':
+                        await vloop.vwait(client.set_configuration(sink.seid, source.seid, source.configuration))
+                    elif op == 'open':
+                        await vloop.vwait(client.open(sink.seid))
+                        transport = await vloop.vwait(ca.create_l2cap_channel(spec=l2cap.ClassicChannelSpec(psm=AVDTP_PSM)))
+                    elif op == 'start':
+                        await vloop.vwait(client.start([sink.seid]))
+                    elif op == 'suspend':
+                        await vloop.vwait(client.suspend([sink.seid]))
+                    elif op == 'close':
+                        await vloop.vwait(client.close(sink.seid))
+                        if transport is not None:
+                            await vloop.vwait(transport.disconnect())
+                            transport = None
+                    else:
+                        await vloop.vwait(client.abort(sink.seid))
+                        if transport is not None:
+                            await vloop.vwait(transport.disconnect())
+                            transport = None
+            except vloop.Hang:
+                r.bad(f'stream/{mode}/hang/{op}/in-{model}', f'{op} in {model} pending at T_v; ops so far {ops_done}')
+                outcome = 'hang'
+            except (core.ProtocolError, core.InvalidStateError) as e:
+                outcome = f'refused:{type(e).__name__}'
+            except Exception as e:
+                outcome = f'raised:{type(e).__name__}: {e}'
+            try:
+                await rg.quiesce()
+            except vloop.Hang:
+                r.bad(f'stream/{mode}/livelock/{op}/in-{model}', 'signalling never quiesces')
+                return
+            after = states()
+            ops_done.append((op, outcome, after))
+            r.ev('stream_ops')
+            r.ev(f'stream_{mode}_ops')
+            r.ev('stream_state_comparisons')
+            r.ev('oracle_evals')
+            if outcome == 'hang':
+                break
+            ctx = (f'{mode}: {op} in {model} -> {outcome}; source,sink before={before} after={after}; '
+                   f'sequence {[rs.STREAM_OPS[x] for x in seq]} history {ops_done[-6:]}')
+            if outcome.startswith('raised'):
+                r.bad(f'stream/{mode}/raised/{op}/in-{model}', ctx)
+                break
+            accepted = outcome == 'ok'
+            both = [s for s in after if s is not None]
+            if nxt is None:
+                r.ev('stream_illegal_ops')
+                had_illegal = True
+                tolerated = None
+                if op == 'abort' and model == rs.IDLE:
+                    tolerated = rs.IDLE                       # answered either way, still IDLE
+                elif op == 'start' and model == rs.CONFIGURED and mode == 'api' and accepted:
+                    tolerated = rs.STREAMING                  # documented auto-open
+                if tolerated is not None:
+                    if any(s != tolerated for s in both):
+                        r.bad(f'stream/{mode}/disagree/after-{op}/from-{model}', ctx)
+                        break
+                    model = tolerated
+                    continue
+                if accepted:
+                    r.bad(f'stream/{mode}/illegal-accepted/{op}/in-{model}', ctx)
+                    break
+                if after != before or any(s != model for s in both):
+                    r.bad(f'stream/{mode}/illegal-changed-state/{op}/in-{model}', ctx)
+                    break
+                continue
+            if not accepted:
+                r.bad(f'stream/{mode}/legal-refused/{op}/in-{model}', ctx)
+                break
+            legal_moves += 1
+            if any(s != nxt for s in both):
+                which = 'disagree' if len(both) == 2 and both[0] != both[1] else 'wrong-state'
+                r.bad(f'stream/{mode}/{which}/after-{op}/from-{model}', ctx)
+                break
+            model = nxt
+        r.ev('stream_sequences')
+        if had_illegal or legal_moves >= 3:
+            r.sig('stream', mode, seq)
+        r.evals()
+        # leave nothing behind for the next sequence (not judged)
+        try:
+            if transport is not None:
+                await vloop.vwait(transport.disconnect())
+            if stream is not None and stream.rtp_channel is not None:
+                await vloop.vwait(stream.rtp_channel.disconnect())
+                stream.rtp_channel = None
+            if sink.stream is not None and sink.stream.state != State.IDLE:
+                await vloop.vwait(client.abort(sink.seid))
+            server.channel_acceptor = None
+            await rg.quiesce()
+        except Exception:
+            pass
+        r.sample = {'kind': 'stream', 'mode': mode, 'sequence': [rs.STREAM_OPS[x] for x in seq],
+                    'trace(op,outcome,(source,sink))': ops_done[:12]}
+    for where, e in rg.exceptions:
+        r.bad(f'stream/{mode}/exception-in-stack', f'{where}: {e}')
+    r.sched.add(rg.schedule_signature)
+
+
 async def run_case(case, r: R):
     k = case['kind']
     if k == 'sdp':
         await sdp_case(case, r)
+    elif k == 'avdtp-chan':
+        await avdtp_chan_case(case, r)
+    elif k in ('avdtp-asm', 'avctp-asm'):
+        rng = random.Random(case['seed'] ^ (0xC7 if k == 'avctp-asm' else 0))
+        hist = avdtp_asm_history if k == 'avdtp-asm' else avctp_history
+        # fault-free histories first: can the assembler deliver clean trains at all?
+        basic_broken = False
+        for _ in range(case['n'] // 8):
+            ok, smp = hist(rng, r, force_fault='none')
+            basic_broken = basic_broken or not ok
+        for _ in range(case['n'] - case['n'] // 8):
+            ok, smp = hist(rng, r, basic_broken=basic_broken)
+        if r.sample is None:
+            r.sample = smp
+    elif k == 'avctp-chan':
+        await avctp_chan_case(case, r)
+    elif k == 'stream':
+        await stream_case(case, r)
 
 
-LEVEL_TEXT = ''
-LEVEL_NOTE = ''
-TECHNIQUE = ''
+LEVEL_TEXT = ('Independent SDP matcher/filter (every pattern UUID, any nesting depth, ids and ranges) compared with '
+              'the client API results of ~400 (quick) / ~4000 (thorough) generated record tables x MTU {48,49,51,100,672,'
+              '65535} x 1-3 concurrently connected bumble clients, answers tuned to k*capacity-1..+1 up to the client '
+              'continuation limit, plus a wire monitor pairing every server response with the request of its link; AVDTP '
+              'message equality over real channels with MTU 48..1024 per side (expected bytes written from the spec, '
+              'reference reassembler over the wire log); AVDTP and AVCTP assemblers fed spec-built good and broken '
+              'fragment trains; every AVDTP stream operation sequence up to length 5 (quick) / 6 (thorough) plus random '
+              'ones to length 12, through the Stream API and as raw commands against the acceptor, against the AVDTP '
+              'state table. Held = no refuting execution observed; sampling of tables, sizes and schedules, exhaustive '
+              'only for the enumerated operation sequences.')
+LEVEL_NOTE = ('Trusted: vlib/ref_sdp.py (data element codec, matcher, filter, AVDTP/AVCTP framing, state table), the rig '
+              'taps and independent ACL reassembler, the virtual-time loop. No loss on the link: broken trains are '
+              'injected at the assembler or written by the harness. Requests are spec-conformant and sized to the server '
+              'MTU; answers are bounded by the 64-response continuation watchdog.')
+TECHNIQUE = ('runtime monitoring: reference matcher/filter beside the real SDP client+server, offline wire-log pairing of '
+             'responses to requests, sent==delivered oracles on AVDTP/AVCTP reassembly, lock-step AVDTP state table')
